@@ -256,4 +256,14 @@ PROPS = {
         essential={"lifecycle": {"injections_reached": 20.0, "history:failure_then_further_use": 0.3, "op:move_assign": 0.3, "op:convolve": 0.3, "op:fit_valid": 0.3, "op:read_mem_bad": 0.3}},
         assumptions=["the abstract model learns coefficient values after fit/convolve by snapshot (they are checked by C09/C14), and predicts everything else"],
     ),
+    "C18": dict(
+        level="exploration",
+        level_text="Stateful differential testing of the C interface: generated sequences of up to 30 calls over 1..3 handles (init, free incl. double free, read of good / missing / damaged files into empty and occupied handles, read_mem, write to writable / unwritable paths and to memory incl. an occupied destination, get/read/write key with present, absent, reserved and malformed keys, every getter, tablesearchcenters and the three evaluators, convolve, glamfit with valid and invalid arguments, grideval + ndsparse_destroy, valid and invalid permutations) are mirrored call by call on C++ twin objects. The C return must signal failure exactly when the C++ operation throws or returns failure; after every call every getter and auxiliary key of every handle must equal its twin (bit for bit for evaluations); the case runs in a forked child (an escaping exception terminates it = failing case) and LeakSanitizer runs after every case.",
+        level_note="Only handles in a state the header allows are used (initialised, or freed to NULL and then only init/free/read); gradients are only requested for tables the layout supports because the void wrapper cannot report failure.",
+        technique="stateful differential property testing (rapidcheck, fork-isolated, ASan/LSan) against a C++ twin",
+        units=[U("c18_cinter", "c18_cinter.cpp", quick=2000, thorough=300000, names=["cinter_twin"])],
+        rule="Non-trivial history: contains a failing call followed by a successful use of the same handle, or a grid evaluation; distinct = hash of the call list.",
+        essential={"cinter_twin": {"history:failure_then_use_or_grideval": 0.3, "op:read_missing": 0.2, "op:glamfit_invalid": 0.2, "op:permute_invalid": 0.05, "op:grideval": 0.05, "op:read_key_int": 0.05, "op:free": 0.3}},
+        assumptions=["the C++ twin is driven through the public C++ API only"],
+    ),
 }
